@@ -520,7 +520,7 @@ func init() {
 	}
 
 	planTable["C23"] = enumPlan("exploration",
-		"Every sequence of up to 4 (quick) / 5 (thorough, plus value-log GC) operations out of {inline set, value-log set, delete, flush, compaction, advance the (virtual) clock past the data-key rotation interval, close/re-open, master-key rotation (the two library calls the badger rotate command makes: OpenKeyRegistry with the old key, WriteKeyRegistry with the new one), open with a wrong key} on a database encrypted with a 16-, 24- or 32-byte master key (rotating over the cases), data-key rotation interval 1 s. After every step: Get and iteration equal a map model (so data written under earlier data keys and before a master-key rotation stays readable); no file of the directory (tables, WAL, value log, MANIFEST, KEYREGISTRY, DISCARD, LOCK) contains a user key or a distinctive value prefix in plaintext; no two encryption calls used the same (data key id, IV) pair (y.VerifIV hook in the record encoder and the block encryptor); after a master-key rotation the old key no longer opens the database; an open with a wrong key fails with ErrEncryptionKeyMismatch and leaves every file byte-identical. Environment deviation (second stage, alphabet {inline set, value-log set, flush, clock advance, failed KEYREGISTRY write, re-open}, up to 5 / 6 steps): one request for the latest data key runs while KEYREGISTRY cannot be written; the next request must again return a persisted key and nothing written afterwards may be in plaintext.",
+		"Every sequence of up to 4 (quick) / 5 (thorough, plus value-log GC) operations out of {inline set, value-log set, delete, flush, compaction, advance the (virtual) clock past the data-key rotation interval, close/re-open, master-key rotation (the two library calls the badger rotate command makes: OpenKeyRegistry with the old key, WriteKeyRegistry with the new one), open with a wrong key} on a database encrypted with a 16-, 24- or 32-byte master key (rotating over the cases), data-key rotation interval 1 s. After every step: Get and iteration equal a map model (so data written under earlier data keys and before a master-key rotation stays readable); no file of the directory (tables, WAL, value log, MANIFEST, KEYREGISTRY, DISCARD, LOCK) contains a user key or a distinctive value prefix in plaintext; no two encryption calls used the same (data key id, IV) pair (y.VerifIV hook in the record encoder and the block encryptor); after a master-key rotation the old key no longer opens the database; an open with a wrong key fails with ErrEncryptionKeyMismatch and leaves every file byte-identical. Environment deviation (second stage, alphabet {inline set, value-log set, flush, clock advance, failed KEYREGISTRY write, re-open}, up to 5 / 6 steps): one request for the latest data key runs while KEYREGISTRY cannot be written; the next request must again return a persisted key and nothing written afterwards may be in plaintext. Scripted: rotation intervals of 100 years and MaxInt64 (the first data key must still be created), and read-only opens after the rotation interval has elapsed.",
 		"Runs inside a synctest bubble (virtual clock drives data-key rotation). The rotate command lives in package badger/cmd, which cannot be imported from the package under test; its two library calls are made directly.",
 		"recursive enumeration of operation sequences; distinct = distinct (master key size, sequence); counters: encryptions observed, data keys used",
 		[]Stage{en("c23enc", 16, 90, prm("len", 4)), en("c23enc", 16, 60, prm("len", 5, "alphabet", "S B F A X R"))},
